@@ -430,3 +430,1552 @@ def to_dictv(it, v, di):
     if isinstance(v, Abs):
         return DictV(di, run.fresh('absdict', di.sort))
     raise Unsupported('cannot convert %r to a %s' % (v, di.name))
+
+
+# ------------------------------------------------------------------------------------------ opaque values
+class Abs:
+    """opaque python value: attributes / calls / arithmetic give opaque values, tests fork on a fresh Bool."""
+
+    def __init__(self, what='value'):
+        self.what = what
+
+    def __repr__(self):
+        return '<abs %s>' % self.what
+
+    def __neg__(self):
+        return Abs('neg')
+
+
+class FeatV:
+    """numpy array of features (opaque term of sort Feat)."""
+
+    def __init__(self, term):
+        self.term = term
+
+
+class FeatMat:
+    """converter.to_features(batch): row j is a function of the parameters of trial j only (assumed contract)."""
+
+    def __init__(self, conv, xs, params):
+        self.conv, self.xs, self.params = conv, M.snapshot(xs), params
+
+
+class ConverterV:
+    def __init__(self, term, kw):
+        self.term, self.kw = term, kw
+
+
+class FnV:
+    """opaque deterministic python callable float-valued (NumpyExperimenter.impl, noise functions)."""
+
+    def __init__(self, fn, nondet=False):
+        self.fn, self.nondet = fn, nondet
+
+
+featmat1 = z3.Function('to_features_1', Conv, PD, Feat)        # to_features([t]) : the (1, d) matrix
+featrow = z3.Function('to_features_row', Conv, PD, Feat)      # to_features(ts)[i]
+topar0 = z3.Function('to_parameters_0', Conv, Feat, PD)       # to_parameters(m)[0] for a (1, d) matrix
+toparrow = z3.Function('to_parameters_row', Conv, Feat, PD)   # to_parameters(m)[i] as a function of row i
+np_sub = z3.Function('np_sub', Feat, Feat, Feat)
+np_add = z3.Function('np_add', Feat, Feat, Feat)
+np_other = z3.Function('np_binop', z3.IntSort(), Feat, Feat, Feat)
+pv_as_float = z3.Function('ParameterValue_as_float', PVal, PVal)
+pv_other = z3.Function('ParameterValue_cast', z3.IntSort(), PVal, PVal)
+str_startswith = z3.Function('str_startswith', Str, Str, z3.BoolSort())
+str_concat = z3.Function('str_concat', Str, Str, Str)
+_CASTS = {'as_int': 1, 'as_str': 2, 'as_bool': 3}
+
+
+def fresh_bool(it, what):
+    return it.run.fresh('abs_' + what, z3.BoolSort())
+
+
+def abs_list(it, what='items'):
+    run = it.run
+    n = run.fresh('abs_n', z3.IntSort())
+    run.assume(n >= 0)
+    return VList(n, run.fresh('abs_a', z3.ArraySort(z3.IntSort(), AbsS)), K_ABS)
+
+
+def _feat_term(it, v):
+    if isinstance(v, FeatV):
+        return v.term
+    return it.run.fresh('absfeat', Feat)
+
+
+# ------------------------------------------------------------------------------------------ hook plumbing
+def _chain(name, fn):
+    prev = getattr(M, name)
+
+    def hook(*a):
+        r = fn(*a)
+        if r is not M.MISSING:
+            return r
+        return prev(*a)
+    setattr(M, name, hook)
+
+
+def _bi(name, fn):
+    return Builtin(name, fn)
+
+
+def _dict_methods(it, dv, a):
+    di = dv.di
+    if a in ('items', 'keys', 'values'):
+        def mk(it_, args, kw, a=a):
+            assume_wf(it_.run, dv)
+            return ItemsList(dv, a)
+        return _bi(a, mk)
+    if a == 'get':
+        def get(it_, args, kw):
+            k = pm._lift(args[0], Str)
+            if it_.truth(di.dom(dv.term)[k]):
+                return di.vwrap(di.val(dv.term)[k])
+            return args[1] if len(args) > 1 else None
+        return _bi('get', get)
+    if a == 'get_value' and di is PDI:
+        def get_value(it_, args, kw):
+            k = pm._lift(args[0], Str)
+            if it_.truth(di.dom(dv.term)[k]):
+                return RawV(di.val(dv.term)[k])
+            return args[1] if len(args) > 1 else None
+        return _bi('get_value', get_value)
+    if a == 'as_dict' and di is PDI:
+        return _bi('as_dict', lambda it_, args, kw: Abs('as_dict'))
+    raise Unsupported('method %s of a %s value' % (a, di.name))
+
+
+def _value_getattr(it, v, a):
+    run = it.run
+    if isinstance(v, Abs):
+        return Abs(v.what + '.' + a)
+    if isinstance(v, TrialV):
+        r = v.term
+        if a == 'parameters':
+            return DictV(PDI, H(run, 'params')[r])
+        if a == 'final_measurement':
+            if it.pure:
+                raise Unsupported('Trial.final_measurement in a pure expression')
+            return MeasV(r) if it.truth(H(run, 'fmset')[r]) else None
+        if a == 'infeasible':
+            return H(run, 'infeas')[r]
+        if a == 'infeasibility_reason':
+            return Abs('reason') if it.truth(H(run, 'infeas')[r]) else None
+        if a == 'complete':
+            return _bi('Trial.complete', lambda it_, args, kw: trial_complete(it_, v, args, kw))
+        if a == 'is_completed':
+            return z3.Or(H(run, 'fmset')[r], H(run, 'infeas')[r])
+        if a == 'final_measurement_or_die':
+            if not it.truth(H(run, 'fmset')[r]):
+                raise PyRaise(it.make_exc('ValueError', ['Trial is missing final_measurement']))
+            return MeasV(r)
+        if a in ('id', 'metadata', 'description', 'creation_time', 'completion_time', 'duration', 'measurements'):
+            return Abs('trial.' + a)
+        raise Unsupported('Trial.%s is outside the trial model' % a)
+    if isinstance(v, MeasV):
+        if a == 'metrics':
+            return DictV(MDI, H(run, 'metrics')[v.ref])
+        if a in ('elapsed_secs', 'steps', 'checkpoint_path'):
+            return Abs('measurement.' + a)
+        raise Unsupported('Measurement.%s' % a)
+    if isinstance(v, MeasNew):
+        if a == 'metrics':
+            return v.metrics
+        raise Unsupported('Measurement.%s' % a)
+    if isinstance(v, MetricV):
+        if a == 'value':
+            return MetricS.value(v.term)
+        if a == 'std':
+            return MetricS.std(v.term) if it.truth(MetricS.has_std(v.term)) else None
+        raise Unsupported('Metric.%s' % a)
+    if isinstance(v, PValV):
+        if a == 'value':
+            return RawV(v.term)
+        if a == 'as_float':
+            return RawV(pv_as_float(v.term))
+        if a in _CASTS:
+            return RawV(pv_other(_CASTS[a], v.term))
+        raise Unsupported('ParameterValue.%s' % a)
+    if isinstance(v, GoalV):
+        if a in ('is_maximize', 'is_minimize'):
+            cls = E.ModuleInfo.get(BSC).classes['ObjectiveMetricGoal']
+            return it.invoke(E.FuncVal(cls.mod, cls.methods[a], cls), [v], {})
+        if a in ('MAXIMIZE', 'MINIMIZE'):
+            return goal_member(it, a)
+        if a == 'value':
+            return v.term
+        raise Unsupported('ObjectiveMetricGoal.%s' % a)
+    if isinstance(v, MetricInfoV):
+        if a == 'goal':
+            return GoalV(H(run, 'goal')[v.term])
+        if a == 'name':
+            return H(run, 'miname')[v.term]
+        return Abs('metric_information.' + a)
+    if isinstance(v, DictV):
+        return _dict_methods(it, v, a)
+    if isinstance(v, SMap):
+        if a == 'items' or a == 'keys' or a == 'values':
+            raise Unsupported('iteration over a dict that is being built in a symbolic loop')
+        raise Unsupported('method %s of a dict under construction' % a)
+    if isinstance(v, VList):
+        if a == 'append':
+            return _bi('append', lambda it_, args, kw: vlist_append(it_, v, args[0]))
+        return M.MISSING
+    if isinstance(v, ConverterV):
+        if a == 'to_features':
+            return _bi('to_features', lambda it_, args, kw: conv_to_features(it_, v, args[0]))
+        if a == 'to_parameters':
+            return _bi('to_parameters', lambda it_, args, kw: conv_to_parameters(it_, v, args[0]))
+        return Abs('converter.' + a)
+    if isinstance(v, FeatV):
+        if a == 'item':
+            return _bi('item', lambda it_, args, kw: it_.run.fresh('featitem', xreal.XReal))
+        return Abs('ndarray.' + a)
+    if z3.is_expr(v) and v.sort() == Str and a == 'startswith':
+        return _bi('startswith', lambda it_, args, kw: str_startswith(v, pm._lift(args[0], Str)))
+    if isinstance(v, str) and a == 'startswith':
+        return _bi('startswith', lambda it_, args, kw: (v.startswith(args[0]) if isinstance(args[0], str)
+                                                        else str_startswith(pm.str_lit(v), args[0])))
+    return M.MISSING
+
+
+_chain('value_getattr_hook', _value_getattr)
+
+_prev_value_getattr = M.value_getattr
+
+
+def _value_getattr_first(it, v, a):
+    # VList is a SymList: models.value_getattr would use its own append (scalar element kinds only)
+    if isinstance(v, VList) and a == 'append':
+        return _bi('append', lambda it_, args, kw: vlist_append(it_, v, args[0]))
+    return _prev_value_getattr(it, v, a)
+
+
+M.value_getattr = _value_getattr_first
+
+_prev_setattr = E.Interp.setattr
+
+
+def _setattr(self, o, a, v):
+    run = self.run
+    if isinstance(o, TrialV):
+        r = o.term
+        if a == 'parameters':
+            Hset(run, 'params', r, to_dictv(self, v, PDI).term)      # attrs converter: ParameterDict(v), a value copy
+            return
+        if a == 'final_measurement':
+            if v is None:
+                Hset(run, 'fmset', r, z3.BoolVal(False))
+                return
+            md, rest = measurement_value(self, v)
+            Hset(run, 'fmset', r, z3.BoolVal(True))
+            Hset(run, 'metrics', r, md)
+            Hset(run, 'rest', r, rest)
+            return
+        raise Unsupported('assignment to Trial.%s is outside the trial model' % a)
+    if isinstance(o, MeasV):
+        if a == 'metrics':
+            Hset(run, 'metrics', o.ref, to_dictv(self, v, MDI).term)   # converter _MetricDict(**v)
+            return
+        raise Unsupported('assignment to Measurement.%s' % a)
+    if isinstance(o, MeasNew):
+        if a == 'metrics':
+            o.metrics = v
+            return
+        raise Unsupported('assignment to Measurement.%s' % a)
+    if isinstance(o, MetricInfoV):
+        if a == 'goal':
+            if not isinstance(v, GoalV):
+                raise Unsupported('MetricInformation.goal = %r' % (v,))
+            Hset(run, 'goal', o.term, v.term)
+            return
+        if a == 'name':
+            Hset(run, 'miname', o.term, pm._lift(v, Str))
+            return
+        raise Unsupported('assignment to MetricInformation.%s' % a)
+    if isinstance(o, Abs):
+        return
+    return _prev_setattr(self, o, a, v)
+
+
+E.Interp.setattr = _setattr
+
+
+def measurement_value(it, v):
+    """(metrics dict term, rest term) of a measurement object."""
+    run = it.run
+    if isinstance(v, MeasV):
+        return H(run, 'metrics')[v.ref], H(run, 'rest')[v.ref]
+    if isinstance(v, MeasNew):
+        return to_dictv(it, v.metrics, MDI).term, v.rest
+    if isinstance(v, Abs):
+        return run.fresh('absmetrics', MD), run.fresh('absrest', MRest)
+    raise Unsupported('%r used as a Measurement' % (v,))
+
+
+def trial_complete(it, t, args, kw):
+    """Trial.complete(measurement, *, infeasibility_reason=None, inplace=True)."""
+    run = it.run
+    if kw.get('inplace', True) is not True:
+        raise Unsupported('Trial.complete(inplace=False)')
+    m = args[0] if args else kw.get('measurement')
+    md, rest = measurement_value(it, m)
+    r = t.term
+    Hset(run, 'fmset', r, z3.BoolVal(True))
+    Hset(run, 'metrics', r, md)
+    Hset(run, 'rest', r, rest)
+    if kw.get('infeasibility_reason') is not None:
+        Hset(run, 'infeas', r, z3.BoolVal(True))
+    return t
+
+
+def _subscript(it, base, idx):
+    if isinstance(base, Abs):
+        return Abs(base.what + '[]')
+    if isinstance(base, DictV):
+        di = base.di
+        k = pm._lift(idx, Str)
+        if not it.truth(di.dom(base.term)[k]):
+            raise PyRaise(it.make_exc('KeyError', [idx]))
+        return di.vwrap(di.val(base.term)[k])
+    if isinstance(base, SMap):
+        k = pm._lift(idx, Str)
+        if base.di is None or not it.truth(base.dom[k]):
+            raise PyRaise(it.make_exc('KeyError', [idx]))
+        return base.di.vwrap(base.val[k])
+    if isinstance(base, FeatMat):
+        pos = M.sym_index(it, base.xs, idx)
+        return FeatV(featrow(base.conv.term, base.params[base.xs.arr[pos]]))
+    if isinstance(base, FeatV):
+        return FeatV(it.run.fresh('featsub', Feat))
+    if isinstance(base, ParamsOf):
+        if isinstance(idx, int) and idx == 0:
+            return DictV(PDI, topar0(base.conv.term, base.feat))
+        raise Unsupported('to_parameters(...)[%r]' % (idx,))
+    return M.MISSING
+
+
+def _setitem(it, base, idx, v):
+    if isinstance(base, SMap):
+        base.set(it, idx, v)
+        return True
+    if isinstance(base, Abs):
+        return True
+    if isinstance(base, DictV):
+        raise Unsupported('in-place item assignment on a %s value' % base.di.name)
+    return M.MISSING
+
+
+def _contains(it, container, x):
+    if isinstance(container, Abs) or isinstance(x, Abs):
+        return fresh_bool(it, 'in')
+    if isinstance(container, DictV):
+        return container.di.dom(container.term)[pm._lift(x, Str)]
+    if isinstance(container, SMap):
+        if container.di is None:
+            raise Unsupported('`in` on an untyped dict under construction')
+        return container.dom[pm._lift(x, Str)]
+    if isinstance(container, ItemsList) and container.what == 'keys':
+        return container.dv.di.dom(container.dv.term)[pm._lift(x, Str)]
+    return M.MISSING
+
+
+def _len(it, v):
+    if isinstance(v, Abs):
+        n = it.run.fresh('abs_len', z3.IntSort())
+        it.run.assume(n >= 0)
+        return n
+    if isinstance(v, DictV):
+        assume_wf(it.run, v)
+        return v.di.n(v.term)
+    return M.MISSING
+
+
+def _iterate(it, v):
+    if isinstance(v, (DictV, SMap)):
+        raise Unsupported('iteration over a symbolic dict outside a for loop')
+    return M.MISSING
+
+
+_chain('subscript_hook', _subscript)
+_chain('setitem_hook', _setitem)
+_chain('contains_hook', _contains)
+_chain('len_hook', _len)
+_chain('iterate_hook', _iterate)
+
+_prev_truth = M.truth_hook
+
+
+def _truth(it, v):
+    if isinstance(v, Abs):
+        if it.pure:
+            return fresh_bool(it, 'truth')
+        return it.run.choose(fresh_bool(it, 'truth'))
+    if isinstance(v, (TrialV, MeasV, MeasNew, MetricV, PValV, MetricInfoV, ConverterV, FeatV, FeatMat, FnV, GoalV)):
+        return True
+    if isinstance(v, DictV):
+        return v.di.n(v.term) > 0
+    if isinstance(v, RawV):
+        return fresh_bool(it, 'rawtruth')
+    return _prev_truth(it, v)
+
+
+M.truth_hook = _truth
+
+
+# ------------------------------------------------------------------------------------------ operators / builtins
+_prev_compare = M.compare
+
+
+def _compare(it, op, l, r):
+    if isinstance(op, (ast.Is, ast.IsNot, ast.In, ast.NotIn)):
+        return _prev_compare(it, op, l, r)
+    if isinstance(l, (RawV, PValV)) and isinstance(r, (RawV, PValV)) and isinstance(op, (ast.Eq, ast.NotEq)):
+        c = l.term == r.term
+        return c if isinstance(op, ast.Eq) else z3.Not(c)
+    if isinstance(l, DictV) and isinstance(r, DictV) and l.di is r.di and isinstance(op, (ast.Eq, ast.NotEq)):
+        s = z3.Const('s!deq', Str)
+        di = l.di
+        c = z3.ForAll([s], z3.And(di.dom(l.term)[s] == di.dom(r.term)[s],
+                                  z3.Implies(di.dom(l.term)[s], di.val(l.term)[s] == di.val(r.term)[s])))
+        return c if isinstance(op, ast.Eq) else z3.Not(c)
+    if any(isinstance(x, (Abs, RawV, FeatV)) for x in (l, r)):
+        return fresh_bool(it, 'cmp')
+    return _prev_compare(it, op, l, r)
+
+
+M.compare = _compare
+
+
+def xdiv(a, b):
+    """IEEE division on extended reals (finite/finite is mathematical; the sign of zero is not modelled)."""
+    X = xreal
+    fa, fb = X.is_fin(a), X.is_fin(b)
+    return z3.If(z3.Or(X.is_nan(a), X.is_nan(b)), X.nan,
+                 z3.If(z3.And(fa, fb),
+                       z3.If(X.r(b) != 0, X.fin(X.r(a) / X.r(b)),
+                             z3.If(X.r(a) == 0, X.nan, z3.If(X.r(a) > 0, X.pinf, X.ninf))),
+                       z3.If(fa, X.fin(z3.RealVal(0)),
+                             z3.If(fb, z3.If(X.sign_pos(a) == z3.Not(X.sign_neg(b)), X.pinf, X.ninf), X.nan))))
+
+
+def _binop(it, op, l, r, inplace):
+    if isinstance(l, FeatV) or isinstance(r, FeatV):
+        a, b = _feat_term(it, l), _feat_term(it, r)
+        if isinstance(op, ast.Sub):
+            return FeatV(np_sub(a, b))
+        if isinstance(op, ast.Add):
+            return FeatV(np_add(a, b))
+        return FeatV(np_other(z3.IntVal(abs(hash(type(op).__name__)) % 997), a, b))
+    if isinstance(l, Abs) or isinstance(r, Abs):
+        if (xreal.is_x(l) or xreal.is_x(r) or isinstance(l, float) or isinstance(r, float)) and not isinstance(op, ast.Mod):
+            return it.run.fresh('absnum', xreal.XReal)
+        return Abs('binop')
+    if isinstance(op, ast.Div) and (xreal.is_x(l) or xreal.is_x(r)):
+        return xdiv(xreal.lift(l), xreal.lift(r))
+    if isinstance(op, ast.Add) and ((z3.is_expr(l) and l.sort() == Str) or (z3.is_expr(r) and r.sort() == Str)) \
+            and (isinstance(l, str) or isinstance(r, str) or (z3.is_expr(l) and z3.is_expr(r))):
+        return str_concat(pm._lift(l, Str), pm._lift(r, Str))
+    if isinstance(l, RawV) or isinstance(r, RawV):
+        return Abs('rawop')
+    return M.MISSING
+
+
+# must run before models.binop's own string handling (name + '_before_noise' must be an injective-free UF of both parts)
+_prev_binop = M.binop
+
+
+def _binop_first(it, op, l, r, inplace=False):
+    h = _binop(it, op, l, r, inplace)
+    if h is not M.MISSING:
+        return h
+    return _prev_binop(it, op, l, r, inplace)
+
+
+M.binop = _binop_first
+
+_prev_unary = M.unary
+
+
+def _unary(it, op, v):
+    if isinstance(v, (Abs, RawV)):
+        return Abs('unary')
+    if isinstance(v, FeatV):
+        return FeatV(it.run.fresh('featneg', Feat))
+    return _prev_unary(it, op, v)
+
+
+M.unary = _unary
+
+
+def _sym_parts(it, args):
+    parts = []
+    for a in args:
+        if isinstance(a, Abs):
+            a = abs_list(it)
+        parts.append(a)
+    return parts
+
+
+_prev_zip = M.BUILTINS['zip'].fn
+
+
+def _b_zip(it, args, kw):
+    parts = _sym_parts(it, args)
+    if any(isinstance(p, SymList) and M.try_iterate(it, p) is None for p in parts) or any(isinstance(p, FeatV) for p in parts):
+        out = []
+        for p in parts:
+            if isinstance(p, FeatV):
+                p = abs_list(it)
+            if not isinstance(p, SymList):
+                conc = M.try_iterate(it, p)
+                if conc is None:
+                    raise Unsupported('zip over %r' % (p,))
+                k = kind_of_value(conc[0]) if conc else K_ABS
+                if k is None:
+                    raise Unsupported('zip of a symbolic list with a concrete list of %r' % (conc[0],))
+                p = new_vlist(it, k, conc)
+            out.append(p)
+        return ZipList(out)
+    return _prev_zip(it, parts, kw)
+
+
+_prev_enum = M.BUILTINS['enumerate'].fn
+
+
+def _b_enumerate(it, args, kw):
+    parts = _sym_parts(it, args[:1])
+    if isinstance(parts[0], SymList) and M.try_iterate(it, parts[0]) is None:
+        return EnumList(parts[0], args[1] if len(args) > 1 else kw.get('start', 0))
+    return _prev_enum(it, parts + list(args[1:]), kw)
+
+
+def _wrap_builtin(name, fn):
+    prev = M.BUILTINS[name].fn
+
+    def b(it, args, kw):
+        r = fn(it, args, kw)
+        if r is not M.MISSING:
+            return r
+        return prev(it, args, kw)
+    M.BUILTINS[name] = Builtin(name, b)
+
+
+M.BUILTINS['zip'] = Builtin('zip', _b_zip)
+M.BUILTINS['enumerate'] = Builtin('enumerate', _b_enumerate)
+_wrap_builtin('abs', lambda it, args, kw: Abs('abs') if isinstance(args[0], (Abs, RawV, FeatV)) else M.MISSING)
+_wrap_builtin('float', lambda it, args, kw: it.run.fresh('absfloat', xreal.XReal) if args and isinstance(args[0], (Abs, RawV)) else M.MISSING)
+_wrap_builtin('int', lambda it, args, kw: it.run.fresh('absint', z3.IntSort()) if args and isinstance(args[0], (Abs, RawV)) else M.MISSING)
+_wrap_builtin('sum', lambda it, args, kw: it.run.fresh('abssum', z3.IntSort()) if args and isinstance(args[0], (Abs,)) else M.MISSING)
+_wrap_builtin('set', lambda it, args, kw: Abs('set') if args and isinstance(args[0], (Abs, ItemsList, DictV)) else M.MISSING)
+_wrap_builtin('list', lambda it, args, kw: abs_list(it) if args and isinstance(args[0], Abs) else M.MISSING)
+_wrap_builtin('range', lambda it, args, kw: abs_list(it) if any(isinstance(a, Abs) for a in args) else M.MISSING)
+_wrap_builtin('str', lambda it, args, kw: it.run.fresh('absstr', Str) if args and isinstance(args[0], (Abs, RawV)) else M.MISSING)
+
+
+def _isinstance_hook(it, o, c):
+    if isinstance(o, Abs):
+        return fresh_bool(it, 'isinstance')
+    name = c if isinstance(c, str) else getattr(c, 'name', None)
+    if isinstance(o, MetricV):
+        return name == 'Metric'
+    if isinstance(o, PValV):
+        return name == 'ParameterValue'
+    if isinstance(o, RawV):
+        return fresh_bool(it, 'isinstance') if name in ('str', 'int', 'float', 'bool') else False
+    if isinstance(o, TrialV):
+        return name in ('Trial', 'TrialSuggestion')
+    return M.MISSING
+
+
+_chain('isinstance_hook', _isinstance_hook)
+
+
+def _call_hook(it, f, args, kw):
+    if isinstance(f, Abs):
+        return Abs(f.what + '()')
+    if isinstance(f, FnV):
+        return f.fn(it, args, kw)
+    return M.MISSING
+
+
+_chain('call_hook', _call_hook)
+
+
+# ------------------------------------------------------------------------------------------ havoc / snapshot / deepcopy
+def _path_havoc(it, o, name):
+    """havoc of an object mutated inside a symbolic loop: only the attribute paths that the loop body mutates."""
+    node = getattr(it, '_c20_loop', None)
+    if node is None:
+        raise Unsupported('havoc of object %s outside a loop' % name)
+    paths = set()
+
+    def chain(e):
+        out = []
+        while isinstance(e, (ast.Attribute, ast.Subscript, ast.Call)):
+            if isinstance(e, ast.Attribute):
+                out.append(e.attr)
+                e = e.value
+            elif isinstance(e, ast.Subscript):
+                out.append(None)
+                e = e.value
+            else:
+                return None, None
+        if isinstance(e, ast.Name):
+            return e.id, list(reversed(out))
+        return None, None
+
+    for n in ast.walk(node):
+        tgt = None
+        if isinstance(n, (ast.Attribute, ast.Subscript)) and isinstance(n.ctx, (ast.Store, ast.Del)):
+            tgt = n
+        elif isinstance(n, ast.Call) and isinstance(n.func, ast.Attribute) and n.func.attr in E.MUTATORS:
+            tgt = n.func.value
+            b, p = chain(tgt)
+            if b == name:
+                paths.add(tuple(p) + ('<mutated>',))
+            continue
+        if tgt is not None:
+            b, p = chain(tgt)
+            if b == name:
+                paths.add(tuple(p))
+    for p in sorted(paths, key=len):
+        cur, ok = o, True
+        attrs = [x for x in p if x != '<mutated>']
+        # stop at the first subscript: the container at that point is havocked as a whole
+        if None in attrs:
+            attrs = attrs[:attrs.index(None)]
+            whole = True
+        else:
+            whole = p[-1:] == ('<mutated>',)
+        if not attrs:
+            raise Unsupported('loop mutates %s itself' % name)
+        for a in attrs[:-1]:
+            if isinstance(cur, Obj) and a in cur.attrs:
+                cur = cur.attrs[a]
+            elif isinstance(cur, Abs):
+                ok = False
+                break
+            else:
+                raise Unsupported('loop mutates %s.%s (not an attribute path of known objects)' % (name, '.'.join(attrs)))
+        if not ok or isinstance(cur, Abs):
+            continue
+        last = attrs[-1]
+        if not isinstance(cur, Obj):
+            raise Unsupported('loop mutates attribute %s of %r' % (last, cur))
+        if last in cur.attrs:
+            cur.attrs[last] = M.fresh_like(it, cur.attrs[last], name + '_' + last) if whole else _havoc_value(it, cur.attrs[last], name + '_' + last)
+    return o
+
+
+def _havoc_value(it, v, name):
+    return M.fresh_like(it, v, name)
+
+
+_prev_fresh_like = M.fresh_like
+
+
+def _fresh_like(it, v, name):
+    run = it.run
+    if isinstance(v, list) and not v:
+        r = VList(run.fresh(name + '_n', z3.IntSort()), None, None)
+        r.vname = name
+        run.assume(r.n >= 0)
+        return r
+    if isinstance(v, list) and v and kind_of_value(v[0]) is not None and not isinstance(v[0], str):
+        k = kind_of_value(v[0])
+        r = VList(run.fresh(name + '_n', z3.IntSort()), run.fresh(name + '_a', z3.ArraySort(z3.IntSort(), k.sort)), k)
+        run.assume(r.n >= 0)
+        return r
+    if isinstance(v, VList):
+        v.n = run.fresh(name + '_n', z3.IntSort())
+        run.assume(v.n >= 0)
+        if v.kind is not None:
+            v.arr = run.fresh(name + '_a', z3.ArraySort(z3.IntSort(), v.kind.sort))
+        v.pos = None
+        return v
+    if isinstance(v, (ZipList, EnumList, ItemsList)):
+        return v
+    if isinstance(v, M.PyDict):
+        if v.default_factory is not None:
+            return Abs('defaultdict')
+        return SMap(name)
+    if isinstance(v, SMap):
+        r = SMap(name)
+        if v.di is not None:
+            r.ensure(it, v.di)
+        return r
+    if isinstance(v, tuple):
+        return tuple(_fresh_like(it, x, '%s_%d' % (name, i)) for i, x in enumerate(v))
+    if isinstance(v, Abs):
+        return Abs(name)
+    if isinstance(v, TrialV):
+        return TrialV(run.fresh(name, TRef))
+    if isinstance(v, MetricInfoV):
+        return MetricInfoV(run.fresh(name, MIRef))
+    if isinstance(v, (MetricV, PValV, RawV, GoalV, FeatV)):
+        return type(v)(run.fresh(name, v.term.sort()))
+    if isinstance(v, DictV):
+        return DictV(v.di, run.fresh(name, v.di.sort))
+    if isinstance(v, MeasV):
+        return MeasV(run.fresh(name, TRef))
+    if isinstance(v, MeasNew):
+        return MeasNew(SMap(name + '_metrics').ensure(it, MDI), run.fresh(name + '_rest', MRest))
+    if isinstance(v, (ConverterV, FnV, FeatMat, E.FuncVal, E.Bound, Builtin, E.ModRef, E.ExtRef, E.ClassInfo)):
+        return v
+    if isinstance(v, Obj) and not isinstance(v, ExcObj):
+        return _path_havoc(it, v, name)
+    return _prev_fresh_like(it, v, name)
+
+
+M.fresh_like = _fresh_like
+
+_prev_snapshot = M.snapshot
+
+
+def _snapshot(v):
+    if isinstance(v, VList):
+        r = VList(v.n, v.arr, v.kind, v.pos)
+        return r
+    if isinstance(v, SMap):
+        return v.copy()
+    if isinstance(v, (ZipList, EnumList, ItemsList)):
+        return v
+    return _prev_snapshot(v)
+
+
+M.snapshot = _snapshot
+
+_prev_deepcopy = M.deepcopy
+
+
+def copy_trials(it, xs):
+    """deepcopy of a batch: fresh pairwise-distinct trial references with equal field values."""
+    run = it.run
+    arr = run.fresh('copy_a', z3.ArraySort(z3.IntSort(), TRef))
+    pos = run.fresh('copy_pos', z3.ArraySort(TRef, z3.IntSort()))
+    j = z3.Int('j!cp')
+    inr = z3.And(j >= 0, j < xs.n)
+    old = heap_snapshot(run)
+    run.axiom(z3.ForAll([j], z3.Implies(inr, z3.And(z3.Not(old['talloc'][arr[j]]), pos[arr[j]] == j))))
+    new = {}
+    for f in TRIAL_FIELDS + ('talloc',):
+        new[f] = run.fresh('H_' + f, old[f].sort())
+        run.ghost['H.' + f] = new[f]
+    r = z3.Const('r!cp', TRef)
+    for f in TRIAL_FIELDS:
+        run.axiom(z3.ForAll([j], z3.Implies(inr, new[f][arr[j]] == old[f][xs.arr[j]])))
+        run.axiom(z3.ForAll([r], z3.Implies(old['talloc'][r], new[f][r] == old[f][r])))
+    run.axiom(z3.ForAll([r], z3.Implies(old['talloc'][r], new['talloc'][r])))
+    run.axiom(z3.ForAll([j], z3.Implies(inr, new['talloc'][arr[j]])))
+    return VList(xs.n, arr, K_TRIAL, pos)
+
+
+def copy_trial(it, t):
+    run = it.run
+    r = run.fresh('copy_t', TRef)
+    run.assume(z3.Not(H(run, 'talloc')[r]))
+    for f in TRIAL_FIELDS:
+        Hset(run, f, r, H(run, f)[t.term])
+    Hset(run, 'talloc', r, z3.BoolVal(True))
+    return TrialV(r)
+
+
+def copy_metricinfos(it, xs):
+    run = it.run
+    arr = run.fresh('micopy_a', z3.ArraySort(z3.IntSort(), MIRef))
+    pos = run.fresh('micopy_pos', z3.ArraySort(MIRef, z3.IntSort()))
+    j = z3.Int('j!mc')
+    inr = z3.And(j >= 0, j < xs.n)
+    old = heap_snapshot(run)
+    run.axiom(z3.ForAll([j], z3.Implies(inr, z3.And(z3.Not(old['mialloc'][arr[j]]), pos[arr[j]] == j))))
+    r = z3.Const('r!mc', MIRef)
+    for f in ('goal', 'miname', 'mirest', 'mialloc'):
+        new = run.fresh('H_' + f, old[f].sort())
+        run.ghost['H.' + f] = new
+        if f == 'mialloc':
+            run.axiom(z3.ForAll([j], z3.Implies(inr, new[arr[j]])))
+            run.axiom(z3.ForAll([r], z3.Implies(old[f][r], new[r])))
+        else:
+            run.axiom(z3.ForAll([j], z3.Implies(inr, new[arr[j]] == old[f][xs.arr[j]])))
+            run.axiom(z3.ForAll([r], z3.Implies(old['mialloc'][r], new[r] == old[f][r])))
+    return VList(xs.n, arr, K_MI, pos)
+
+
+def _deepcopy(it, v, memo=None):
+    memo = memo if memo is not None else {}
+    if id(v) in memo:
+        return memo[id(v)]
+    if isinstance(v, VList) and v.kind is K_TRIAL:
+        r = copy_trials(it, v)
+    elif isinstance(v, VList) and v.kind is K_MI:
+        r = copy_metricinfos(it, v)
+    elif isinstance(v, VList):
+        r = VList(v.n, v.arr, v.kind, v.pos)
+    elif isinstance(v, TrialV):
+        r = copy_trial(it, v)
+    elif isinstance(v, SMap):
+        r = v.copy()
+    elif isinstance(v, Abs):
+        r = Abs(v.what)
+    elif isinstance(v, (DictV, MetricV, PValV, RawV, GoalV, FeatV, ConverterV, FnV)):
+        r = v
+    elif isinstance(v, MeasNew):
+        r = MeasNew(_deepcopy(it, v.metrics, memo), v.rest)
+    elif isinstance(v, list) and v and all(isinstance(x, TrialV) for x in v):
+        r = [copy_trial(it, x) for x in v]
+    else:
+        return _prev_deepcopy(it, v, memo)
+    memo[id(v)] = r
+    return r
+
+
+M.deepcopy = _deepcopy
+
+
+# ------------------------------------------------------------------------------------------ comprehensions / loops
+_prev_filter_map = M.symbolic_filter_map
+
+
+def _filter_map(it, fr, e, xs):
+    """[elt(x) for x in xs] over an array-list of values: a map (no `if`): same length, pointwise definition."""
+    if not isinstance(xs, (VList, ZipList, EnumList, ItemsList)):
+        return _prev_filter_map(it, fr, e, xs)
+    run = it.run
+    gen = e.generators[0]
+    if gen.ifs:
+        raise Unsupported('filtering list comprehension over a symbolic list of values')
+    J = run.fresh('cj', z3.IntSort())
+    fr2 = E.Frame(fr.mod, {}, parent=fr)
+    it.pure += 1
+    try:
+        it.assign(fr2, gen.target, xs.get(J))
+        eltv = it.eval(fr2, e.elt)
+    finally:
+        it.pure -= 1
+    k = kind_of_value(eltv)
+    if k is None:
+        if isinstance(eltv, MeasNew):
+            return Abs('list of new measurements')
+        raise Unsupported('comprehension element %r' % (eltv,))
+    if k is K_ABS:
+        r = abs_list(it)
+        r.n = xs.n
+        return r
+    eterm = k.unwrap(it, eltv)
+    arr = run.fresh('carr', z3.ArraySort(z3.IntSort(), k.sort))
+    j = z3.Int('j!c')
+    run.axiom(z3.ForAll([j], z3.Implies(z3.And(j >= 0, j < xs.n), arr[j] == z3.substitute(eterm, (J, j)))))
+    r = VList(xs.n, arr, k)
+    r.map_of = (xs, lambda i: z3.substitute(eterm, (J, i)))
+    return r
+
+
+M.symbolic_filter_map = _filter_map
+
+_prev_comprehension = M.comprehension
+
+
+def _comprehension(it, fr, e, kind):
+    """dict comprehensions over symbolic lists: {k(x): v(x) for x in xs [if c(x)]} -> SMap by definition."""
+    gens = e.generators
+    if len(gens) == 1 and kind in ('dict', 'list', 'set', 'gen'):
+        first = it.eval(fr, gens[0].iter)
+        if isinstance(first, Abs):
+            return Abs('comprehension')
+        if kind == 'dict' and isinstance(first, SymList) and M.try_iterate(it, first) is None:
+            return dict_comprehension(it, fr, e, first)
+    return _prev_comprehension(it, fr, e, kind)
+
+
+def dict_comprehension(it, fr, e, xs):
+    run = it.run
+    gen = e.generators[0]
+    J = run.fresh('dj', z3.IntSort())
+    fr2 = E.Frame(fr.mod, {}, parent=fr)
+    it.pure += 1
+    try:
+        it.assign(fr2, gen.target, xs.get(J))
+        cond = E.zbool(E.zand(*[it.truth_term(it.eval(fr2, c)) for c in gen.ifs]))
+        kv, vv = it.eval(fr2, e.key), it.eval(fr2, e.value)
+    finally:
+        it.pure -= 1
+    kt = pm._lift(kv, Str) if not isinstance(kv, RawV) else None
+    if kt is None:
+        return RawMap(run, xs, J, cond, kv, vv)
+    if isinstance(vv, (MetricV,)) or xreal.is_x(vv):
+        di = MDI
+    elif isinstance(vv, (PValV, RawV)):
+        di = PDI
+    else:
+        di = None
+    m = SMap('dcomp')
+    if di is None:
+        # values are not tracked (only membership is used): a name set
+        m.di, m.opaque_values = PDI, True
+        m.dom = run.fresh('dcomp_dom', z3.ArraySort(Str, z3.BoolSort()))
+        m.val = run.fresh('dcomp_val', z3.ArraySort(Str, PVal))
+        m.src = run.fresh('dcomp_src', z3.ArraySort(Str, z3.IntSort()))
+    else:
+        m.ensure(it, di)
+    s, j = z3.Const('s!dc', Str), z3.Int('j!dc')
+    key_at = lambda i: z3.substitute(kt, (J, i))
+    cond_at = lambda i: z3.substitute(cond, (J, i))
+    cl = [z3.ForAll([s], z3.Implies(m.dom[s], z3.And(m.src[s] >= 0, m.src[s] < xs.n, cond_at(m.src[s]), key_at(m.src[s]) == s))),
+          z3.ForAll([j], z3.Implies(z3.And(j >= 0, j < xs.n, cond_at(j)), z3.And(m.dom[key_at(j)], m.src[key_at(j)] >= j)))]
+    if di is not None:
+        vt = di.vunwrap(it, vv)
+        cl.append(z3.ForAll([s], z3.Implies(m.dom[s], m.val[s] == z3.substitute(vt, (J, m.src[s])))))
+    for c in cl:
+        run.axiom(c)
+    m.comp_of = (xs, key_at, cond_at)
+    return m
+
+
+class RawMap:
+    """{a: b for a, b in zip(F, P)} with raw parameter values as keys: src-skolemised definition."""
+
+    def __init__(self, run, xs, J, cond, kv, vv):
+        if not isinstance(vv, RawV):
+            raise Unsupported('dict comprehension with raw-value keys and values %r' % (vv,))
+        self.xs = xs
+        self.dom = run.fresh('rm_dom', z3.ArraySort(PVal, z3.BoolSort()))
+        self.val = run.fresh('rm_val', z3.ArraySort(PVal, PVal))
+        self.src = run.fresh('rm_src', z3.ArraySort(PVal, z3.IntSort()))
+        self.key_at = lambda i: z3.substitute(kv.term, (J, i))
+        self.val_at = lambda i: z3.substitute(vv.term, (J, i))
+        c_at = lambda i: z3.substitute(cond, (J, i))
+        s, j = z3.Const('s!rm', PVal), z3.Int('j!rm')
+        run.axiom(z3.ForAll([s], z3.Implies(self.dom[s], z3.And(self.src[s] >= 0, self.src[s] < xs.n, c_at(self.src[s]),
+                                                                  self.key_at(self.src[s]) == s, self.val[s] == self.val_at(self.src[s])))))
+        run.axiom(z3.ForAll([j], z3.Implies(z3.And(j >= 0, j < xs.n, c_at(j)),
+                                            z3.And(self.dom[self.key_at(j)], self.src[self.key_at(j)] >= j))))
+
+
+M.comprehension = _comprehension
+
+ABS_LOOP = E.LoopSpec(lambda it, fr, ctx: [])
+_prev_symbolic_loop = E.Interp.symbolic_loop
+
+
+def _is_abstract_iter(v):
+    if isinstance(v, VList):
+        return v.kind is K_ABS
+    if isinstance(v, ZipList):
+        return any(_is_abstract_iter(p) for p in v.parts)
+    if isinstance(v, EnumList):
+        return _is_abstract_iter(v.xs)
+    return False
+
+
+def _symbolic_loop(self, fr, s, it_):
+    if isinstance(it_, Abs):
+        it_ = abs_list(self)
+    key = self.loop_key(fr, s)
+    added = False
+    if key not in E.LOOPS and _is_abstract_iter(it_):
+        # a loop over opaque values: no invariant is needed for what the model tracks (its write set is havocked)
+        E.LOOPS[key] = ABS_LOOP
+        added = True
+    old = getattr(self, '_c20_loop', None)
+    self._c20_loop = s
+    try:
+        return _prev_symbolic_loop(self, fr, s, it_)
+    finally:
+        self._c20_loop = old
+        if added:
+            del E.LOOPS[key]
+
+
+E.Interp.symbolic_loop = _symbolic_loop
+
+
+# ------------------------------------------------------------------------------------------ converters / numpy
+K_FEAT = Kind('features', Feat, FeatV, _unwrap_term(FeatV))
+_prev_kind_of_value = kind_of_value
+
+
+def kind_of_value(v):      # noqa: F811  (extended with feature rows)
+    if isinstance(v, FeatV):
+        return K_FEAT
+    return _prev_kind_of_value(v)
+
+
+class ParamsOf:
+    """converter.to_parameters(features) for a one-row feature matrix."""
+
+    def __init__(self, conv, feat):
+        self.conv, self.feat = conv, feat
+
+
+def as_trial_list(it, xs):
+    """batch argument -> VList of trial references with a membership predicate."""
+    if isinstance(xs, VList) and xs.kind is K_TRIAL:
+        return xs
+    conc = M.try_iterate(it, xs) if not isinstance(xs, SymList) else None
+    if conc is not None and all(isinstance(t, TrialV) for t in conc):
+        r = new_vlist(it, K_TRIAL, conc)
+        r.conc = list(conc)
+        return r
+    raise Unsupported('%r used as a batch of trials' % (xs,))
+
+
+def member_of(xs, r):
+    conc = getattr(xs, 'conc', None)
+    if conc is not None:
+        return z3.Or(*[r == t.term for t in conc]) if conc else z3.BoolVal(False)
+    return xs.member(r)
+
+
+def conv_to_features(it, conv, arg):
+    run = it.run
+    if isinstance(arg, Abs):
+        return FeatV(run.fresh('absfeat', Feat))
+    xs = as_trial_list(it, arg)
+    conc = getattr(xs, 'conc', None)
+    if conc is not None and len(conc) == 1:
+        return FeatV(featmat1(conv.term, H(run, 'params')[conc[0].term]))
+    return FeatMat(conv, xs, H(run, 'params'))
+
+
+def conv_to_parameters(it, conv, arg):
+    run = it.run
+    if isinstance(arg, FeatV):
+        return ParamsOf(conv, arg.term)
+    if isinstance(arg, FeatMat):
+        arr = run.fresh('topar_a', z3.ArraySort(z3.IntSort(), PD))
+        j = z3.Int('j!tp')
+        xs = arg.xs
+        run.axiom(z3.ForAll([j], z3.Implies(z3.And(j >= 0, j < xs.n),
+                                            arr[j] == toparrow(conv.term, featrow(arg.conv.term, arg.params[xs.arr[j]])))))
+        r = VList(xs.n, arr, K_PD)
+        r.topar_of = (conv, arg)
+        return r
+    n = run.fresh('topar_n', z3.IntSort())
+    run.assume(n >= 0)
+    return VList(n, run.fresh('topar_a', z3.ArraySort(z3.IntSort(), PD)), K_PD)
+
+
+def conv_convert(it, conv, arg):
+    """DefaultModelInputConverter.convert(trials): one feature row per trial."""
+    run = it.run
+    xs = as_trial_list(it, arg)
+    arr = run.fresh('conv_a', z3.ArraySort(z3.IntSort(), Feat))
+    j = z3.Int('j!cv')
+    P = H(run, 'params')
+    run.axiom(z3.ForAll([j], z3.Implies(z3.And(j >= 0, j < xs.n), arr[j] == featrow(conv.term, P[xs.arr[j]]))))
+    return VList(xs.n, arr, K_FEAT)
+
+
+def _new_converter(it, args, kw):
+    return ConverterV(it.run.fresh('conv', Conv), dict(kw))
+
+
+E.MODELS[CNV + ':TrialToArrayConverter.from_study_config'] = _new_converter
+E.MODELS[CNV + ':TrialToArrayConverter'] = _new_converter
+
+
+def _input_converter(it, args, kw):
+    c = ConverterV(it.run.fresh('iconv', Conv), dict(kw))
+    c.input = True
+    return c
+
+
+E.MODELS[CNV + ':DefaultModelInputConverter'] = _input_converter
+
+_prev_value_getattr2 = M.value_getattr
+
+
+def _value_getattr_conv(it, v, a):
+    if isinstance(v, ConverterV) and a == 'convert':
+        return _bi('convert', lambda it_, args, kw: conv_convert(it_, v, args[0]))
+    return _prev_value_getattr2(it, v, a)
+
+
+M.value_getattr = _value_getattr_conv
+
+
+def _ext(name, fn):
+    E.EXTERNAL[name] = Builtin(name, fn)
+
+
+def _np_broadcast_to(it, args, kw):
+    if it.run.choose(fresh_bool(it, 'broadcast_fails')):
+        raise PyRaise(it.make_exc('ValueError', ['operands could not be broadcast']))
+    return args[0] if isinstance(args[0], FeatV) else Abs('broadcast')
+
+
+def _np_std(it, args, kw):
+    run = it.run
+    s = run.fresh('np_std', xreal.XReal)
+    run.assume(z3.Not(xreal.is_ninf(s)))
+    run.assume(z3.Implies(xreal.is_fin(s), xreal.r(s) >= 0))
+    run.np_std_results = getattr(run, 'np_std_results', []) + [s]
+    return s
+
+
+_ext('numpy.broadcast_to', _np_broadcast_to)
+_ext('numpy.std', _np_std)
+_ext('numpy.mean', lambda it, args, kw: it.run.fresh('np_mean', xreal.XReal))
+for _n in ('linspace', 'zeros', 'ones', 'array', 'asarray', 'max', 'min', 'power', 'sum', 'prod', 'arange', 'sqrt', 'abs'):
+    _ext('numpy.' + _n, lambda it, args, kw, _n=_n: Abs('np.' + _n))
+_ext('numpy.isfinite', lambda it, args, kw: (xreal.isfinite(xreal.lift(args[0])) if xreal.is_x(args[0]) or isinstance(args[0], (int, float))
+                                              else fresh_bool(it, 'isfinite')))
+E.EXTERNAL['numpy.nan'] = float('nan')
+E.EXTERNAL['numpy.inf'] = float('inf')
+_ext('numpy.random.default_rng', lambda it, args, kw: Abs('rng'))
+_ext('numpy.random.RandomState', lambda it, args, kw: Abs('rng'))
+E.EXTERNAL['numpy.ndarray'] = Abs('np.ndarray')
+_ext('collections.defaultdict', lambda it, args, kw: Abs('defaultdict'))
+_ext('functools.partial', lambda it, args, kw: Abs('partial'))
+_ext('json.dumps', lambda it, args, kw: it.run.fresh('json', Str))
+_ext('random.Random', lambda it, args, kw: Abs('random.Random'))
+_ext('attr.evolve', lambda it, args, kw: Abs('evolve'))
+
+
+# ------------------------------------------------------------------------------------------ pyvizier classes
+class MetricsConfigV:
+    """MetricsConfig: a mutable container of MetricInformation references."""
+
+    def __init__(self, lst):
+        self.lst = lst
+
+
+MRest0 = z3.Const('MeasRest_default', MRest)
+
+
+def _m_metric(it, args, kw):
+    v = args[0] if args else kw.get('value')
+    std = args[1] if len(args) > 1 else kw.get('std')
+    if isinstance(v, (Abs, RawV)):
+        v = it.run.fresh('absvalue', xreal.XReal)
+    if not (xreal.is_x(v) or isinstance(v, (int, float)) or (z3.is_expr(v) and v.sort() in (z3.IntSort(), z3.RealSort()))):
+        raise Unsupported('Metric(value=%r)' % (v,))
+    if std is None:
+        return MetricV(MetricS.mk(xreal.lift(v), z3.BoolVal(False), xreal.lit(0.0)))
+    if isinstance(std, Abs):
+        std = it.run.fresh('absstd', xreal.XReal)
+    return MetricV(MetricS.mk(xreal.lift(v), z3.BoolVal(True), xreal.lift(std)))
+
+
+def _m_measurement(it, args, kw):
+    metrics = args[0] if args else kw.get('metrics')
+    if metrics is None:
+        metrics = M.PyDict()
+    if not isinstance(metrics, (M.PyDict, SMap, DictV, Abs)):
+        raise Unsupported('Measurement(metrics=%r)' % (metrics,))
+    rest = MRest0 if not (set(kw) - {'metrics'}) and len(args) <= 1 else it.run.fresh('rest', MRest)
+    return MeasNew(metrics, rest)
+
+
+def _m_parameter_dict(it, args, kw):
+    if kw:
+        raise Unsupported('ParameterDict(**kwargs)')
+    if not args:
+        return DictV(PDI, PDI.empty())
+    return to_dictv(it, args[0], PDI)
+
+
+def _m_parameter_value(it, args, kw):
+    v = args[0] if args else kw.get('value')
+    if isinstance(v, (RawV, PValV)):
+        return PValV(v.term)
+    return PValV(it.run.fresh('pval', PVal))
+
+
+def _m_trial(it, args, kw):
+    run = it.run
+    r = run.fresh('newtrial', TRef)
+    run.assume(z3.Not(H(run, 'talloc')[r]))
+    Hset(run, 'talloc', r, z3.BoolVal(True))
+    p = args[0] if args else kw.get('parameters')
+    Hset(run, 'params', r, (to_dictv(it, p, PDI).term if p is not None else PDI.empty()))
+    Hset(run, 'infeas', r, z3.BoolVal(kw.get('infeasibility_reason') is not None))
+    fm = kw.get('final_measurement')
+    if fm is None:
+        Hset(run, 'fmset', r, z3.BoolVal(False))
+    else:
+        md, rest = measurement_value(it, fm)
+        Hset(run, 'fmset', r, z3.BoolVal(True))
+        Hset(run, 'metrics', r, md)
+        Hset(run, 'rest', r, rest)
+    return TrialV(r)
+
+
+def goal_member(it, name):
+    cls = E.ModuleInfo.get(BSC).classes['ObjectiveMetricGoal']
+    node = cls.assigns[name]
+    if not (isinstance(node, ast.Constant) and isinstance(node.value, int)):
+        raise Unsupported('ObjectiveMetricGoal.%s is not an int constant' % name)
+    return GoalV(z3.IntVal(node.value))
+
+
+def _m_metric_information(it, args, kw):
+    run = it.run
+    r = run.fresh('newmi', MIRef)
+    run.assume(z3.Not(H(run, 'mialloc')[r]))
+    Hset(run, 'mialloc', r, z3.BoolVal(True))
+    name = args[0] if args else kw.get('name', '')
+    Hset(run, 'miname', r, pm._lift(name, Str))
+    goal = kw.get('goal')
+    if not isinstance(goal, GoalV):
+        raise Unsupported('MetricInformation(goal=%r)' % (goal,))
+    Hset(run, 'goal', r, goal.term)
+    return MetricInfoV(r)
+
+
+def _m_metrics_config(it, args, kw):
+    src = args[0] if args else None
+    if src is None:
+        return MetricsConfigV(new_vlist(it, K_MI))
+    if isinstance(src, VList) and src.kind is K_MI:
+        return MetricsConfigV(VList(src.n, src.arr, K_MI, src.pos))
+    conc = M.try_iterate(it, src)
+    if conc is not None:
+        return MetricsConfigV(new_vlist(it, K_MI, conc))
+    raise Unsupported('MetricsConfig(%r)' % (src,))
+
+
+def new_search_space(what='search_space'):
+    return Obj('SearchSpace', {'_what': what})
+
+
+def _m_problem_statement(it, args, kw):
+    if args:
+        raise Unsupported('ProblemStatement positional arguments')
+    o = Obj('ProblemStatement', {'search_space': kw.get('search_space') or new_search_space(),
+                                 'metric_information': kw.get('metric_information') or MetricsConfigV(new_vlist(it, K_MI)),
+                                 'metadata': kw.get('metadata') or Obj('Metadata', {})})
+    return o
+
+
+E.MODELS[TRM + ':Metric'] = _m_metric
+E.MODELS[TRM + ':Measurement'] = _m_measurement
+E.MODELS[TRM + ':ParameterDict'] = _m_parameter_dict
+E.MODELS[TRM + ':ParameterValue'] = _m_parameter_value
+E.MODELS[TRM + ':Trial'] = _m_trial
+E.MODELS[BSC + ':MetricInformation'] = _m_metric_information
+E.MODELS[BSC + ':MetricsConfig'] = _m_metrics_config
+E.MODELS[BSC + ':ProblemStatement'] = _m_problem_statement
+E.MODELS[PCM + ':SearchSpace'] = lambda it, args, kw: new_search_space('new')
+E.MODELS[PCM + ':ParameterConfig.factory'] = lambda it, args, kw: Abs('ParameterConfig')
+E.MODELS[PCM + ':ParameterConfig'] = lambda it, args, kw: Abs('ParameterConfig')
+
+_prev_class_attr_value = M.class_attr_value
+
+
+def _class_attr_value(it, cls, name, node):
+    if cls.mod.dotted == BSC and cls.qualname == 'ObjectiveMetricGoal' and isinstance(node, ast.Constant):
+        return goal_member(it, name)
+    return _prev_class_attr_value(it, cls, name, node)
+
+
+M.class_attr_value = _class_attr_value
+
+
+def _metrics_config_attr(it, mc, a):
+    run = it.run
+    lst = mc.lst
+    if a == 'item':
+        def item(it_, args, kw):
+            if it_.run.choose(lst.n != 1):
+                raise PyRaise(it_.make_exc('ValueError', ['Can be called only when there is exactly one metric']))
+            return lst.get(z3.IntVal(0))
+        return _bi('item', item)
+    if a == 'of_type' or a == 'exclude_type':
+        def of_type(it_, args, kw):
+            r = it_.run
+            n = r.fresh('oftype_n', z3.IntSort())
+            arr = r.fresh('oftype_a', z3.ArraySort(z3.IntSort(), MIRef))
+            src = r.fresh('oftype_src', z3.ArraySort(z3.IntSort(), z3.IntSort()))
+            r.assume(n >= 0)
+            r.assume(n <= lst.n)
+            j = z3.Int('j!ot')
+            r.axiom(z3.ForAll([j], z3.Implies(z3.And(j >= 0, j < n), z3.And(src[j] >= 0, src[j] < lst.n, arr[j] == lst.arr[src[j]]))))
+            out = MetricsConfigV(VList(n, arr, K_MI))
+            out.sub_of = (mc, src)
+            return out
+        return _bi(a, of_type)
+    if a in ('is_single_objective', 'is_safety_metric'):
+        key = '_' + a
+        if not hasattr(mc, key):
+            setattr(mc, key, fresh_bool(it, a))
+        return getattr(mc, key)
+    if a == 'append':
+        def append(it_, args, kw):
+            vlist_append(it_, lst, args[0])
+        return _bi('append', append)
+    raise Unsupported('MetricsConfig.%s' % a)
+
+
+_prev_value_getattr3 = M.value_getattr
+
+
+def _value_getattr_objs(it, v, a):
+    if isinstance(v, MetricsConfigV):
+        return _metrics_config_attr(it, v, a)
+    return _prev_value_getattr3(it, v, a)
+
+
+M.value_getattr = _value_getattr_objs
+
+_prev_obj_getattr = M.obj_getattr
+
+
+def _obj_getattr(it, o, a):
+    if isinstance(o, Obj) and isinstance(o.cls, str):
+        if o.cls == 'BaseExperimenter':
+            if a == 'evaluate':
+                return _bi('base.evaluate', lambda it_, args, kw: base_evaluate(it_, o, args[0] if args else kw['suggestions']))
+            if a == 'problem_statement':
+                return _bi('base.problem_statement', lambda it_, args, kw: base_problem_statement(it_, o))
+            raise Unsupported('the wrapped experimenter is used through %s (only evaluate / problem_statement are in BaseContract)' % a)
+        if o.cls == 'SearchSpace':
+            if a in ('add', 'select', 'select_root'):
+                return _bi(a, lambda it_, args, kw: Abs('search_space.' + a))
+            return Abs('search_space.' + a)
+        if o.cls == 'Metadata':
+            return Abs('metadata.' + a)
+    return _prev_obj_getattr(it, o, a)
+
+
+M.obj_getattr = _obj_getattr
+
+_prev_symloop2 = E.Interp.symbolic_loop
+
+
+def _symbolic_loop2(self, fr, s, it_):
+    if isinstance(it_, MetricsConfigV):
+        it_ = it_.lst
+    return _prev_symloop2(self, fr, s, it_)
+
+
+E.Interp.symbolic_loop = _symbolic_loop2
+
+_prev_comprehension2 = M.comprehension
+
+
+def _comprehension2(it, fr, e, kind):
+    gens = e.generators
+    if len(gens) == 1:
+        first = it.eval(fr, gens[0].iter)
+        if isinstance(first, MetricsConfigV):
+            conc = M.try_iterate(it, first.lst)
+            if conc is None:
+                if kind == 'dict':
+                    return dict_comprehension(it, fr, e, first.lst)
+                if kind == 'list':
+                    return _filter_map(it, fr, e, first.lst)
+    return _prev_comprehension2(it, fr, e, kind)
+
+
+M.comprehension = _comprehension2
+
+_prev_iterate2 = M.try_iterate
+
+
+def _try_iterate2(it, v):
+    if isinstance(v, MetricsConfigV):
+        return _prev_iterate2(it, v.lst)
+    return _prev_iterate2(it, v)
+
+
+M.try_iterate = _try_iterate2
+
+_prev_deepcopy2 = M.deepcopy
+
+
+def _deepcopy2(it, v, memo=None):
+    memo = memo if memo is not None else {}
+    if isinstance(v, MetricsConfigV):
+        if id(v) in memo:
+            return memo[id(v)]
+        r = MetricsConfigV(M.deepcopy(it, v.lst, memo))
+        memo[id(v)] = r
+        return r
+    return _prev_deepcopy2(it, v, memo)
+
+
+M.deepcopy = _deepcopy2
+
+_prev_len2 = M.len_hook
+
+
+def _len2(it, v):
+    if isinstance(v, MetricsConfigV):
+        return v.lst.n
+    return _prev_len2(it, v)
+
+
+M.len_hook = _len2
+
+
+# ------------------------------------------------------------------------------------------ BaseContract experimenter
+metric_named = z3.Function('base_metric_named', z3.IntSort(), Str, z3.BoolSort())
+metric_index = z3.Function('base_metric_index', z3.IntSort(), Str, z3.IntSort())
+
+
+def make_metric_infos(run, tag):
+    """a problem statement's metric list: symbolic length, pairwise distinct allocated references, unique names."""
+    n = z3.Int('nmi_' + tag)
+    arr = z3.Const('mi_' + tag, z3.ArraySort(z3.IntSort(), MIRef))
+    pos = z3.Const('mipos_' + tag, z3.ArraySort(MIRef, z3.IntSort()))
+    run.assume(n >= 0)
+    j = z3.Int('j!mi')
+    run.axiom(z3.ForAll([j], z3.Implies(z3.And(j >= 0, j < n), z3.And(pos[arr[j]] == j, H(run, 'mialloc')[arr[j]]))))
+    return VList(n, arr, K_MI, pos)
+
+
+def make_base(run, tag, bid):
+    """the wrapped experimenter: opaque class, BaseContract assumed (see base_evaluate / base_problem_statement)."""
+    lst = make_metric_infos(run, tag)
+    ps = Obj('ProblemStatement', {'search_space': new_search_space('base'), 'metric_information': MetricsConfigV(lst),
+                                  'metadata': Obj('Metadata', {})})
+    b = Obj('BaseExperimenter', {'tag': tag, 'bid': bid, '_ps': ps})
+    names0 = H(run, 'miname')
+    j, s = z3.Int('j!bn'), z3.Const('s!bn', Str)
+    B = z3.IntVal(bid)
+    # the metric names of the (constant) problem statement, as a predicate; names are unique (MetricsConfig invariant)
+    run.axiom(z3.ForAll([j], z3.Implies(z3.And(j >= 0, j < lst.n), z3.And(metric_named(B, names0[lst.arr[j]]),
+                                                                          metric_index(B, names0[lst.arr[j]]) == j))))
+    run.axiom(z3.ForAll([s], z3.Implies(metric_named(B, s), z3.And(metric_index(B, s) >= 0, metric_index(B, s) < lst.n,
+                                                                   names0[lst.arr[metric_index(B, s)]] == s))))
+    b.names0, b.lst0 = names0, M.snapshot(lst)
+    run.bases = getattr(run, 'bases', []) + [b]
+    return b
+
+
+def named(b, s):
+    return metric_named(z3.IntVal(b.attrs['bid']), s)
+
+
+def base_problem_statement(it, b):
+    """BaseContract: a fresh deep copy (by value) of the experimenter's constant problem statement."""
+    run = it.run
+    r = M.deepcopy(it, b.attrs['_ps'])
+    run.event('base.problem_statement', b.attrs['tag'])
+    return r
+
+
+def completed_formula(heap, b, r, extra_named=None):
+    """BaseContract for one trial reference r in heap state `heap`: marked infeasible, or completed with (at least) every
+    metric named in the problem statement."""
+    s = z3.Const('s!cf', Str)
+    nm = (lambda x: named(b, x)) if extra_named is None else extra_named
+    return z3.Or(heap['infeas'][r],
+                 z3.And(heap['fmset'][r], z3.ForAll([s], z3.Implies(nm(s), MDI.dom(heap['metrics'][r])[s]))))
+
+
+def base_evaluate(it, b, arg):
+    """BaseContract.evaluate (assumed): every given trial is completed with the metrics named in problem_statement() or marked
+    infeasible; parameters are left as given; no other trial is touched.  Metric values are unconstrained."""
+    run = it.run
+    xs = as_trial_list(it, arg)
+    pre = heap_snapshot(run)
+    call = {'base': b, 'xs': M.snapshot(xs), 'pre': pre, 'locks': None}
+    if getattr(xs, 'conc', None) is not None:
+        call['xs'].conc = xs.conc
+    hook = getattr(run, 'on_base_evaluate', None)
+    if hook is not None:
+        hook(it, call)
+    if getattr(run, 'base_may_raise', False):
+        if run.choose(z3.Bool('base_raises!%d' % len(getattr(run, 'base_calls', [])))):
+            run.base_calls = getattr(run, 'base_calls', []) + [dict(call, raised=True, post=pre)]
+            raise PyRaise(ExcObj(E.AnyExc('base.evaluate'), {'args': ()}))
+    new = {}
+    for f in ('fmset', 'metrics', 'rest', 'infeas'):
+        new[f] = run.fresh('Hb_' + f, pre[f].sort())
+        run.ghost['H.' + f] = new[f]
+    post = heap_snapshot(run)
+    j, s, r = z3.Int('j!be'), z3.Const('s!be', Str), z3.Const('r!be', TRef)
+    conc = getattr(xs, 'conc', None)
+    if conc is not None:
+        for t in conc:
+            rt = t.term
+            run.axiom(z3.ForAll([s], z3.Implies(z3.And(z3.Not(post['infeas'][rt]), named(b, s)), MDI.dom(post['metrics'][rt])[s])))
+            run.assume(z3.Or(post['infeas'][rt], post['fmset'][rt]))
+    else:
+        inr = z3.And(j >= 0, j < xs.n)
+        rj = xs.arr[j]
+        run.axiom(z3.ForAll([j, s], z3.Implies(z3.And(inr, z3.Not(post['infeas'][rj]), named(b, s)), MDI.dom(post['metrics'][rj])[s])))
+        run.axiom(z3.ForAll([j], z3.Implies(inr, z3.Or(post['infeas'][rj], post['fmset'][rj]))))
+    mem = member_of(xs, r)
+    for f in ('fmset', 'metrics', 'rest', 'infeas'):
+        run.axiom(z3.ForAll([r], z3.Implies(z3.Not(mem), post[f][r] == pre[f][r])))
+    call['post'] = post
+    call['raised'] = False
+    run.base_calls = getattr(run, 'base_calls', []) + [call]
+    run.event('base.evaluate', b.attrs['tag'])
+    return None
+
+
+def make_batch(run, name='xs'):
+    """a batch of trials of arbitrary size: pairwise distinct, allocated trial objects (precondition of evaluate)."""
+    n = z3.Int('n_' + name)
+    arr = z3.Const(name, z3.ArraySort(z3.IntSort(), TRef))
+    pos = z3.Const('pos_' + name, z3.ArraySort(TRef, z3.IntSort()))
+    run.assume(n >= 0)
+    j = z3.Int('j!mb')
+    run.axiom(z3.ForAll([j], z3.Implies(z3.And(j >= 0, j < n), z3.And(pos[arr[j]] == j, H(run, 'talloc')[arr[j]]))))
+    return VList(n, arr, K_TRIAL, pos)
+
+
+# ------------------------------------------------------------------------------------------ object graphs (by-value checks)
+_MUTABLE = (Obj, MetricsConfigV, VList, SMap, M.PyDict, list, MeasNew)
+
+
+def reachable(roots):
+    """ids -> python-side mutable objects reachable from the roots (through attrs / containers)."""
+    seen = {}
+    todo = list(roots)
+    while todo:
+        v = todo.pop()
+        if isinstance(v, _MUTABLE):
+            if id(v) in seen:
+                continue
+            seen[id(v)] = v
+        if isinstance(v, Obj):
+            todo.extend(v.attrs.values())
+        elif isinstance(v, MetricsConfigV):
+            todo.append(v.lst)
+        elif isinstance(v, M.PyDict):
+            for k, x in v.items():
+                todo.extend([k, x])
+        elif isinstance(v, (list, tuple)):
+            todo.extend(v)
+        elif isinstance(v, MeasNew):
+            todo.append(v.metrics)
+    return seen
+
+
+def metric_lists(roots):
+    return [v for v in reachable(roots).values() if isinstance(v, VList) and v.kind is K_MI]
+
+
+def state_fingerprint(roots):
+    """identity structure of the python-side state: {id(obj): {attr: id(value) | repr(scalar)}} (for frame checks)."""
+    out = {}
+    for i, v in reachable(roots).items():
+        if isinstance(v, Obj):
+            out[i] = {k: (id(x) if isinstance(x, _MUTABLE) else _scalar_fp(x)) for k, x in v.attrs.items()}
+        elif isinstance(v, MetricsConfigV):
+            out[i] = {'lst': id(v.lst)}
+        elif isinstance(v, VList):
+            out[i] = {'n': _scalar_fp(v.n), 'arr': _scalar_fp(v.arr)}
+        elif isinstance(v, SMap):
+            out[i] = {'dom': _scalar_fp(v.dom), 'val': _scalar_fp(v.val)}
+        elif isinstance(v, M.PyDict):
+            out[i] = {'items': tuple((_scalar_fp(k), id(x) if isinstance(x, _MUTABLE) else _scalar_fp(x)) for k, x in v.items())}
+        elif isinstance(v, list):
+            out[i] = {'items': tuple(id(x) if isinstance(x, _MUTABLE) else _scalar_fp(x) for x in v)}
+    return out
+
+
+def _scalar_fp(x):
+    if z3.is_expr(x):
+        return ('z3', x.get_id())
+    if hasattr(x, 'term') and z3.is_expr(x.term):
+        return (type(x).__name__, x.term.get_id())
+    if isinstance(x, (int, float, str, bool, type(None))):
+        return ('py', repr(x))
+    return ('obj', id(x))
